@@ -5,7 +5,8 @@
 From Coq Require Import List NArith Bool String.
 From TG.Gen Require Import GenTokens GenAst GenGrammar.
 From TG.Model Require Import Chars Lexer Prep Tree ParserPrims GInterp AstAccess CoreAst AstToCore CoreParts ShapeChk Pipeline.
-From TG.Proofs Require Import BridgeProofs BridgeText ShapeSound PipelineProofs.
+From TG.Model Require Import SymbolMap SymbolWf BridgeToks.
+From TG.Proofs Require Import BridgeProofs BridgeText ShapeSound PipelineProofs BridgeSymbol IdNonEmpty.
 Import ListNotations.
 Close Scope string_scope.
 Open Scope N_scope.
@@ -94,6 +95,45 @@ Check Bridge_pipeline_wf : forall pfuel cfuel files root a w,
   analyze pfuel cfuel files root = Some a -> an_core a = Ok w ->
   ws_wf (map (fun fp => pf_text (snd fp)) (an_files a)) w.
 Print Assumptions Bridge_pipeline_wf.
+
+(** for EVERY program of the grammar DSL: every Id token of every tree the parser returns is non-empty *)
+Theorem Bridge_id_tokens_nonempty : forall p entry fuel txt t errs st,
+  parse_with fuel p entry txt = ParseOk t errs st ->
+  forall lo hi tx, In (S_Id, lo, hi, tx) (leaves t) -> tx <> [] /\ lo < hi.
+Proof. exact parse_id_nonempty. Qed.
+Check Bridge_id_tokens_nonempty : forall p entry fuel txt t errs st,
+  parse_with fuel p entry txt = ParseOk t errs st ->
+  forall lo hi tx, In (S_Id, lo, hi, tx) (leaves t) -> tx <> [] /\ lo < hi.
+Print Assumptions Bridge_id_tokens_nonempty.
+
+(** the side conditions of group symmap (model/SymbolWf.v) on the MODEL side: the identifier-token list of ANY trees
+    satisfies [toks_sorted] (hypothesis of C06_coherent / C06_total / C03) *)
+Theorem Bridge_toks_sorted : forall trees, toks_sorted (ws_id_toks trees) = true.
+Proof. exact ws_id_toks_sorted. Qed.
+Check Bridge_toks_sorted : forall trees, toks_sorted (ws_id_toks trees) = true.
+Print Assumptions Bridge_toks_sorted.
+
+(** ... and for EVERY analysis of the pipeline that yields a Core workspace: every identifier of the CoreAst is
+    non-empty and found in that list by [tok_name] with its name ([def_ok] / [op_coh_ok]'s test on the ranges and names the
+    indexer hands to the symbol map), every range of the CoreAst is [range_valid] (C17's [op_range_ok]) *)
+Theorem Bridge_symbol_side_conditions : forall pfuel cfuel files root a w,
+  analyze pfuel cfuel files root = Some a -> an_core a = Ok w ->
+  toks_sorted (ws_id_toks (an_trees a)) = true /\
+  forall k fl, nth_error (ws_files w) k = Some fl ->
+    Forall (fun i => r_lo (i_rng i) < r_hi (i_rng i) /\
+                     tok_name (ws_id_toks (an_trees a)) (mkFR (r_file (i_rng i)) (r_lo (i_rng i)) (r_hi (i_rng i))) = Some (i_name i))
+           (file_idents fl) /\
+    Forall (fun r => range_valid (an_texts a) (mkFR (r_file r) (r_lo r) (r_hi r)) = true) (file_rngs fl).
+Proof. exact pipeline_symbol_side_conditions. Qed.
+Check Bridge_symbol_side_conditions : forall pfuel cfuel files root a w,
+  analyze pfuel cfuel files root = Some a -> an_core a = Ok w ->
+  toks_sorted (ws_id_toks (an_trees a)) = true /\
+  forall k fl, nth_error (ws_files w) k = Some fl ->
+    Forall (fun i => r_lo (i_rng i) < r_hi (i_rng i) /\
+                     tok_name (ws_id_toks (an_trees a)) (mkFR (r_file (i_rng i)) (r_lo (i_rng i)) (r_hi (i_rng i))) = Some (i_name i))
+           (file_idents fl) /\
+    Forall (fun r => range_valid (an_texts a) (mkFR (r_file r) (r_lo r) (r_hi r)) = true) (file_rngs fl).
+Print Assumptions Bridge_symbol_side_conditions.
 
 (** Non-vacuity: parser + bridge on a Core program (vm_compute) *)
 Example Bridge_nonvacuous :
